@@ -99,6 +99,12 @@ func genPartsCase(r *Rng, directed int) PartsCase {
 	if directed == 5 {
 		dlen = 0 // empty data: total 0, reader panics (modelled)
 	}
+	if directed%100 == 7 {
+		// a block cut into many small parts: the tree is deeper than with the default part size
+		// (more than 512 parts: ten aunts and more), every genuine part must still be accepted
+		psize = 1 + r.Intn(2)
+		dlen = psize * []int{513, 514, 515, 520, 600}[r.Intn(5)]
+	}
 	data := r.Bytes(dlen)
 	c.Data = hexs(data)
 	c.PartSize = psize
@@ -494,7 +500,7 @@ func engParts(args []string) error {
 		return err
 	}
 	meta := NewMeta("parts", c.Seed)
-	meta.Rule = "case = data split by the real NewPartSetFromData, a receiver built from the (possibly mutated) header, an arrival sequence of genuine, duplicated and mutated parts, direct Verify calls and bare root computations; distinct = canonical JSON of the case; non-trivial = at least one part was rejected or duplicated or one non-genuine proof was checked"
+	meta.Rule = "case = data (1..120 bytes in parts of 1..24 bytes; one case in a hundred 513..1200 bytes in parts of 1..2 bytes, i.e. more than 512 parts and proofs of ten aunts and more) split by the real NewPartSetFromData, a receiver built from the (possibly mutated) header, an arrival sequence of genuine, duplicated and mutated parts, direct Verify calls and bare root computations; distinct = canonical JSON of the case; non-trivial = at least one part was rejected or duplicated or one non-genuine proof was checked"
 	var cases []PartsCase
 	if c.Replay != "" {
 		var rc struct{ Case PartsCase `json:"case"` }
